@@ -1,4 +1,4 @@
-import PdfVerif.Lemmas.CONCAgreeStep
+import PdfVerif.Lemmas.CONCExclStep
 /-!
 # C18 — cache protocol of `pdf.Extractor`: `cache_monotone` and `agreement`
 
@@ -40,8 +40,9 @@ def results : Event → List (Key × Val)
 whose object is not a reference) -/
 theorem inv_reachable (cfg : Cfg) (hf : cfg.fixed = true) (ls : List Label) (s : State)
     (hl : ∀ l ∈ ls, PairOnDirect cfg l) (h : run cfg State.init ls = some s) : Inv cfg s :=
-  run_inv cfg (PairOnDirect cfg) (Inv cfg) (fun _ _ _ _ hg hi hs => hi.step hf hg hs) ls
-    State.init s hl (Inv.init cfg) h
+  (run_inv cfg (PairOnDirect cfg) (fun s => XInv s ∧ Inv cfg s)
+    (fun _ _ _ _ hg hi hs => ⟨hi.1.step hs, hi.2.step hf hg hi.1.doneOut hs⟩) ls
+    State.init s hl ⟨XInv.init, Inv.init cfg⟩ h).2
 
 /-- every reported result is the value cached for a reference further down the chain -/
 theorem result_justified {cfg : Cfg} {c : Key → Option Val} {e : Event} (he : EvOK cfg c e)
@@ -114,7 +115,7 @@ theorem result_is_cached (cfg : Cfg) (hf : cfg.fixed = true) (ls : List Label) (
 r2) is a trace of the repaired system which satisfies the hypotheses, and it reports three
 results for keys on the chain -/
 example :
-    let cfg : Cfg := ⟨fun r => if r = 1 then .ref 2 else .direct, fun _ => false, true⟩
+    let cfg : Cfg := ⟨fun r => if r = 1 then .ref 2 else .direct, true⟩
     let ls : List Label :=
       [(0, .callDecode (.ref 1) 0 []), (0, .go), (1, .callDecode (.ref 2) 0 []), (1, .go),
        (1, .fnRet (.ok 5)), (0, .go), (0, .fnRet (.ok 7)), (1, .callDecode (.ref 2) 0 [])]
